@@ -468,14 +468,27 @@ func c07xStageKinds(r *h.Result, stream string, s *logql_parser.LogQLScript) {
 }
 
 // c07TextX: byte-equal SQL between the real path and LogQL.planScript
-func c07TextX(r *h.Result, rng *h.Rng, n int) error {
+func c07TextX(r *h.Result, rng *h.Rng, n int, cov *c07gCov) error {
 	r.Stream("textx: logql_parser.Parse → logql_transpiler_v2.Plan (GetBreakpoint, breakScript, clickhouse_planner.Plan) → the ClickHouse request planner of the chain → Process → String vs LogQL.planScript/Sql.renderSel (byte-equal SQL; json with parameters, regexp, drop, filters after them, hand-over)")
 	var ops, impl []string
 	var cases []any
 	for i := 0; i < n; i++ {
 		query := c07xGenQuery(rng, 5)
+		if i%2 == 1 {
+			query = c07gQuery(rng, c07gGuided(c07gCfgX, cov)) // derived from the grammar (c07gram.go)
+			r.Count("textx:from-grammar")
+		}
 		c := genCtx(rng)
 		im, err := c07xImplSQL(query, c)
+		if im != nil && im.script != nil {
+			bp, _ := lt.GetBreakpoint(im.script)
+			if form := c07gRefused(im.script, bp); form != "" {
+				r.Count("textx:refused-form:" + form)
+				if err == nil {
+					r.Disagree("textx-refused", form, "planned: "+truncS(im.text, 200), "the planner refuses this form", map[string]any{"query": query})
+				}
+			}
+		}
 		if err != nil {
 			r.Count("textx:impl-error")
 			cls := err.Error()
@@ -501,8 +514,12 @@ func c07TextX(r *h.Result, rng *h.Rng, n int) error {
 		cases = append(cases, map[string]any{"query": query, "ctx": c})
 		r.Case("textx:"+query+fmt.Sprint(c), true)
 		c07xStageKinds(r, "textx", im.script)
-		if bp, _ := lt.GetBreakpoint(im.script); bp >= 0 {
+		bp, _ := lt.GetBreakpoint(im.script)
+		if bp >= 0 {
 			r.Count("textx:handed-over")
+		}
+		if cov != nil {
+			c07gObserve(im.script, bp, cov.add)
 		}
 		if i%67 == 0 {
 			r.Sample(map[string]any{"stream": "textx", "query": query, "ctx": c, "sql": im.text})
@@ -555,6 +572,7 @@ func c07xVocab(s *logql_parser.LogQLScript) (vocab, []*logql_parser.Parser) {
 type c07xPath struct {
 	ser   string // k<hex>/i<n>
 	parts []any  // string key or int (1-based) position
+	label string // the label the parameter sets
 }
 
 func c07xPathsOf(parsers []*logql_parser.Parser) []c07xPath {
@@ -574,6 +592,9 @@ func c07xPathsOf(parsers []*logql_parser.Parser) []c07xPath {
 				continue
 			}
 			var cp c07xPath
+			if pp.Label != nil {
+				cp.label = pp.Label.Name
+			}
 			var ser []string
 			for j, name := range names {
 				if idx, isIdx := typed[j].(int); isIdx {
@@ -785,15 +806,41 @@ func c07xClassify(s *logql_parser.LogQLScript) string {
 	return strings.Join(ks, ",")
 }
 
+// c07xCorpus: one parenthesised comparison per (position, class of the label it reads); three databases each
+var c07xCorpus = []string{
+	`{a="b"} | drop x | (x="1")`,
+	`{a="b"} | drop x="1" | (x="1" or lvl="2")`,
+	`{a="b"} | drop x | lvl!="2" and (x!="1")`,
+	`{a="b"} | drop x | ((x="1"))`,
+	`{a="b"} | drop x | (n1="")`,
+	`{a="b"} | drop x | x="1"`,
+	`{a="b"} | (x="1") | drop x`,
+	`{a="b"} | json x="a" | (x="1")`,
+	`{a="b"} | json n1="a" | (n1="1" or x="1")`,
+	`{a="b"} | regexp "(?P<x>\\d+)" | (x="42")`,
+	`{a="b"} | drop x | json x="a" | (x="1")`,
+	`{a="b"} | json x="a" | drop x | (x="1")`,
+	`{a="b"} | drop x | (x > 0)`,
+	`{a="b"} | drop x | (x =~ "1")`,
+}
+
 // c07SemX: the statement the real path BUILT, dumped by reflection, evaluated by Sql.evalSelX on small databases against the
 // direct reading LogQL.evalScript — the oracle of C07 on implementation output, for the SQL-side pipeline stages
-func c07SemX(r *h.Result, rng *h.Rng, n int) error {
+func c07SemX(r *h.Result, rng *h.Rng, n int, cov *c07gCov, atoms map[string]int) error {
 	r.Stream("semx: reflection dump of the sql_select tree built through logql_transpiler_v2.Plan → Sql.evalSelX (SELECT aliases visible) on generated databases (JSON / broken / plain / pattern-matching lines) vs LogQL.evalScript (oracle on implementation output); also renderSel(dump) = real text; regexp group count = names")
 	var ops, renderOps, implText []string
 	var cases []map[string]any
 	var keys []string
 	for i := 0; i < n; i++ {
 		query := c07xGenQuery(rng, 4)
+		if i%3 != 0 {
+			query = c07gQuery(rng, c07gGuided(c07gCfgX, cov)) // derived from the grammar (c07gram.go)
+			r.Count("semx:from-grammar")
+		}
+		if i < 3*len(c07xCorpus) {
+			query = c07xCorpus[i/3] // small fixed shapes first: a failure on one of them is the readable replay
+			r.Count("semx:corpus")
+		}
 		c := genCtx(rng)
 		if c.Limit > 100 {
 			c.Limit = int64(rng.Range(1, 4))
@@ -807,6 +854,10 @@ func c07SemX(r *h.Result, rng *h.Rng, n int) error {
 			continue
 		}
 		v, parsers := c07xVocab(im.script)
+		v.never = map[string]bool{}
+		for _, nm := range c07gNeverStored {
+			v.never[nm] = true
+		}
 		paths := c07xPathsOf(parsers)
 		// the SQL-side patterns: names and stripped text, as the planner computes them
 		type rxInfo struct {
@@ -849,6 +900,12 @@ func c07SemX(r *h.Result, rng *h.Rng, n int) error {
 			continue
 		}
 		db := c07xGenDB(rng, c, v, paths, rxTexts)
+		if cov != nil {
+			c07gObserve(im.script, bp, cov.add)
+			c07gAtoms(im.script, bp, func(k string) { atoms[k]++ })
+			atoms["truth:measured"]++
+			c07gTruth(im.script, bp, db.docs, func(k string) { atoms["truth:"+k]++ })
+		}
 		// oracle tables of the new stages; what they extract joins the label values the other tables range over
 		var jf, rc []string
 		for line := range db.lines {
